@@ -402,7 +402,7 @@ def gen_step_case(rng):
                 c["tstart"] = c["tend"]
             if c["qstart"] > c["qend"]:
                 c["qstart"] = c["qend"]
-    elif mode < 0.9:
+    elif mode < 0.87:
         fam = "overflow"
         i = rng.randrange(len(blocks))
         b = list(blocks[i])
@@ -410,6 +410,21 @@ def gen_step_case(rng):
         b[j] = min(U64, rng.choice([U64, U64 - 1, 2 ** 63, U64 - c["tend"], U64 - c["tend"] + 1, c["tsize"] + 1]))
         blocks = blocks[:i] + [tuple(b)] + blocks[i + 1:]
         c["blocks"] = blocks
+    elif mode < 0.95 and len(blocks) >= 2:
+        fam = "sum-overflow"  # size + gap exceeds u64::MAX although each fits; at the strand origin or later
+        i = 0 if rng.random() < 0.6 else rng.randrange(len(blocks) - 1)
+        size = rng.choice([1, 5, 2 ** 63, U64 - 1, U64])
+        over = U64 - size + rng.choice([1, 1, 2, 1000])
+        over = min(over, U64)
+        b = (size, over, rng.choice([0, 1])) if rng.random() < 0.5 else (size, rng.choice([0, 1]), over)
+        blocks = blocks[:i] + [b] + blocks[i + 1:]
+        c["blocks"] = blocks
+        if rng.random() < 0.7:
+            # put the chain at the strand origin: start 0 on '+', or a contig of size u64::MAX on '-'
+            for side in "tq":
+                c[side + "size"] = U64
+                c[side + "start"] = 0
+                c[side + "end"] = rng.choice([U64, c[side + "end"]])
     else:
         fam = "odd-kinds"  # terminating records in the middle, non-terminating at the end
         blocks = [((b[0],) if rng.random() < 0.3 else b) for b in blocks[:-1]] + [rng.choice([blocks[-1], (blocks[-1][0], 0, 0)])]
